@@ -1,9 +1,10 @@
 import ElvisVerif.Model.Codec.BytesExtB
+import ElvisVerif.Generated.CodecB
 /-
 Model of `elvis_core::protocols::arp::arp_parsing::{ArpPacket, Operation}`
 (sim/elvis-core/src/protocols/arp/arp_parsing.rs): `ArpPacket::from_bytes`, `ArpPacket::build`,
 `new_request`, `new_reply`; and of the decode step of `Arp::demux` (protocols/arp.rs).
-Core-only imports (linked into the native driver).
+Core-only imports (linked into the native driver) + the generated constants.
 -/
 namespace Elvis.CodecB.Arp
 open Elvis.CodecB
@@ -54,14 +55,17 @@ def build (p : ArpPacket) : Bytes :=
   putU16 p.htype ++ putU16 p.ptype ++ putU8 p.hlen ++ putU8 p.plen ++ putU16 p.oper.toNat
     ++ putU48 p.senderMac ++ putU32 p.senderIp ++ putU48 p.targetMac ++ putU32 p.targetIp
 
-/-- `ArpPacket::new_request` (HTYPE 1, PTYPE 0x0800, HLEN 6, PLEN 4, target MAC 69) -/
+/-- `ArpPacket::new_request` (HTYPE, PTYPE, HLEN, PLEN as extracted from the source; the
+    placeholder target MAC 69) -/
 def newRequest (senderMac senderIp targetIp : Nat) : ArpPacket :=
-  { htype := 1, ptype := 0x0800, hlen := 6, plen := 4, oper := .request,
+  { htype := Elvis.Gen.CodecB.arpHtype, ptype := Elvis.Gen.CodecB.arpPtype,
+    hlen := Elvis.Gen.CodecB.arpHlen, plen := Elvis.Gen.CodecB.arpPlen, oper := .request,
     senderMac, senderIp, targetMac := 69, targetIp }
 
 /-- `ArpPacket::new_reply` -/
 def newReply (senderMac senderIp targetMac targetIp : Nat) : ArpPacket :=
-  { htype := 1, ptype := 0x0800, hlen := 6, plen := 4, oper := .reply,
+  { htype := Elvis.Gen.CodecB.arpHtype, ptype := Elvis.Gen.CodecB.arpPtype,
+    hlen := Elvis.Gen.CodecB.arpHlen, plen := Elvis.Gen.CodecB.arpPlen, oper := .reply,
     senderMac, senderIp, targetMac, targetIp }
 
 /-- Outcome of `Arp::demux` for a machine whose ARP instance has no local address that equals
